@@ -13,5 +13,6 @@ CONSTANTS
   MaxStore = 1
   CtxMode = "ignored"
   MaxStalls = 0
+  StaleNextHop = FALSE
 INVARIANTS TypeOK SuccessOnlyIf KeysAgree PoolIsIssued PoolReturned Destination NoResidue
 PROPERTIES IgnoresNonCritical
